@@ -60,7 +60,7 @@ func scenarios(o *common.Opts) []*callsim.Scenario {
 	concs := []int{1, 2, 4}
 	touts := []int{300}
 	if o.Thorough() {
-		concs = []int{1, 2, 3, 4, 8}
+		concs = []int{1, 2, 3, 4, 8, 16}
 		touts = []int{150, 300, 600}
 	}
 	type mode struct {
